@@ -927,13 +927,19 @@ class IMAPUserServer:
         Return the next uid_vv. Also update the underlying database
         so that its uid_vv state remains up to date.
         """
+        # NOTE: Several callers may be here at the same time (all the folders
+        #       found when the server starts are set up together): each one
+        #       gets the value it allocated, not whatever the counter has
+        #       reached by the time its database update is done.
+        #
         self.uid_vv += 1
+        uid_vv = self.uid_vv
         await self.db.execute(
             "UPDATE user_server SET uid_vv = ?",
-            (str(self.uid_vv),),
+            (str(uid_vv),),
             commit=True,
         )
-        return self.uid_vv
+        return uid_vv
 
     ##################################################################
     #
